@@ -4,6 +4,7 @@
 // attached to operations. Profiles select the op mix and the oracles:
 //   ownership (C12)  conversion (C05)  roundtrip (C06)  portability (C07)  ub (C15)
 #include <algorithm>
+#include <cfenv>
 #include <cmath>
 #include <cstdio>
 #include <exception>
@@ -46,11 +47,13 @@ enum OpKind : int {
     OP_DESTROY,
     OP_LOOKUP,
     OP_WRAP,
+    OP_LOAD_TWO,
     OP_NKINDS
 };
 const char *const OP_NAMES[OP_NKINDS] = {"Construct", "DefaultCtor", "Write",  "CopyCtor",   "MoveCtor",
                                          "CopyAssign", "MoveAssign", "ConvertCopy", "ConvertMove", "Dump",
-                                         "Load",      "LoadAssign", "Redump", "Destroy",    "Lookup", "Wrap"};
+                                         "Load",      "LoadAssign", "Redump", "Destroy",    "Lookup", "Wrap",
+                                         "LoadTwo"};
 enum FaultKind : int { F_NONE, F_ALLOC, F_EOF, F_IOTHROW, F_TEAR, F_CUDA, F_NKINDS };
 const char *const FAULT_NAMES[F_NKINDS] = {"none", "alloc", "eof", "iothrow", "tear", "cuda"};
 
@@ -74,6 +77,7 @@ struct Plan {
     int nice = 0;
     int pre = 0, post = 0; // junk bytes before / after each dump in its file
     int seek = 0; // the input stream can be positioned (a file) or not (a pipe)
+    int fe = 0; // sticky floating-point exception flags (FE_* mask) the thread already carries when each operation starts
     std::vector<Op> ops;
 };
 
@@ -84,7 +88,7 @@ std::string plan_text(const Plan &p)
     o << "world hist\n";
     o << "run property=" << p.property << " profile=" << p.profile << " seed=" << p.seed << " nslots=" << p.nslots
       << " getbuf=" << p.getbuf << " putbuf=" << p.putbuf << " exc=" << p.exc << " vmode=" << p.vmode
-      << " nice=" << p.nice << " pre=" << p.pre << " post=" << p.post << " seek=" << p.seek << "\n";
+      << " nice=" << p.nice << " pre=" << p.pre << " post=" << p.post << " seek=" << p.seek << " fe=" << p.fe << "\n";
     for (auto &op : p.ops) {
         o << "op " << OP_NAMES[op.kind] << " a=" << op.a << " b=" << op.b;
         if (op.stack >= 0)
@@ -154,6 +158,8 @@ bool parse_plan(std::istream &is, Plan &p, std::string &expect)
                     p.post = std::atoi(v.c_str());
                 else if (k == "seek")
                     p.seek = std::atoi(v.c_str());
+                else if (k == "fe")
+                    p.fe = std::atoi(v.c_str());
             }
             continue;
         }
@@ -464,6 +470,11 @@ struct World {
         bool fired = false;
         int src_slot = -1;
         bool executed = false;
+        // Ambient per-thread state the library does not own: the sticky IEEE exception flags.
+        // Earlier, unrelated arithmetic of the calling thread may have raised any of them.
+        std::feclearexcept(FE_ALL_EXCEPT);
+        if (plan.fe)
+            std::feraiseexcept(plan.fe & FE_ALL_EXCEPT);
         auto expect_no_throw = [&](int rc, int stack) {
             if (rc && !fired) {
                 violate(opi, "unexpected-throw", stack, name, what);
@@ -481,9 +492,8 @@ struct World {
             if ((int)op.ext.size() != d.N)
                 break;
             std::vector<size_t> ext = op.ext;
-            for (auto &e : ext)
-                if (e == 0)
-                    e = 1;
+            if (volume(ext) == 0)
+                cnt.inc("probe.field_without_cells");
             bool big = plan.profile == "bigsweep" || plan.profile == "hugesweep";
             // (a hugesweep plan whose extents were shrunk by the minimiser is an ordinary construction)
             bool huge = plan.profile == "hugesweep" && d.shape == SHAPE_LAYOUT && (storage_len(d, ext) > BIG_STORAGE_CELLS || volume(ext) > BIG_CELLS);
@@ -1069,6 +1079,71 @@ struct World {
             }
             break;
         }
+        case OP_LOAD_TWO: {
+            // Two dumps written one after the other into ONE stream are loaded one after the
+            // other from one stream: the first load must leave the stream exactly behind its
+            // own last byte, in a good state, whatever the stream can or cannot do (seek).
+            auto it1 = files.find(op.b);
+            if (it1 == files.end() || !it1->second.present || it1->second.torn)
+                break;
+            SimFile *f2p = nullptr;
+            for (int k = 1; k <= 2 && !f2p; ++k) {
+                auto it2 = files.find((op.b + k) % 3);
+                if (it2 != files.end() && it2->second.present && !it2->second.torn)
+                    f2p = &it2->second;
+            }
+            if (!f2p)
+                break;
+            SimFile &f1 = it1->second, &f2 = *f2p;
+            int a2 = (a + 1) % ns;
+            if (a2 == a || !ops_of(f1.stack).has_io || !ops_of(f2.stack).has_io || !ops_of(f1.stack).has_core || !ops_of(f2.stack).has_core)
+                break;
+            destroy_slot(A);
+            destroy_slot(slots[a2]);
+            Bytes both;
+            Rng jr(mix64(op.vseed, 9));
+            for (int i = 0; i < plan.pre; ++i)
+                both.push_back((uint8_t)jr.next());
+            size_t start = both.size();
+            both.insert(both.end(), f1.bytes.begin() + (long)f1.start, f1.bytes.begin() + (long)(f1.start + f1.len));
+            both.insert(both.end(), f2.bytes.begin() + (long)f2.start, f2.bytes.begin() + (long)(f2.start + f2.len));
+            for (int i = 0; i < plan.post; ++i)
+                both.push_back((uint8_t)jr.next());
+            SimIStreamBuf sb(both, start, both.size(), (size_t)plan.getbuf, 0, plan.seek != 0);
+            sb.refill_budget = 20 * (both.size() / (size_t)std::max(plan.getbuf, 1) + 8);
+            std::istream is(&sb);
+            if (plan.exc == 1)
+                is.exceptions(std::ios::badbit);
+            else if (plan.exc == 2)
+                is.exceptions(std::ios::badbit | std::ios::failbit);
+            SimFile *ff[2] = {&f1, &f2};
+            int sl[2] = {a, a2};
+            executed = true;
+            for (int k = 0; k < 2; ++k) {
+                const SlotOps &o = ops_of(ff[k]->stack);
+                void *mem = raw_alloc(o);
+                Op plain = op;
+                plain.fkind = F_NONE;
+                int rcode = guarded(plain, [&] { o.load(mem, is); }, what, fired);
+                if (rcode) {
+                    std::free(mem);
+                    if (k == 1)
+                        what = "loading the SECOND field of the same stream: " + what;
+                    violate(opi, "unexpected-throw", ff[k]->stack, name, what);
+                    return;
+                }
+                Slot &S = slots[sl[k]];
+                S.state = S_LIVE;
+                S.stack = ff[k]->stack;
+                S.obj = mem;
+                S.model = ff[k]->model;
+                ++mutating;
+            }
+            cnt.inc("probe.two_fields_loaded_from_one_stream");
+            if (!plan.seek)
+                cnt.inc("probe.two_fields_loaded_from_one_non_seekable_stream");
+            break;
+        }
         case OP_REDUMP: {
             // dump slot a again and compare with the bytes of file b it was loaded from
             auto it = files.find(op.b);
@@ -1224,6 +1299,26 @@ struct World {
                 }
                 cnt.inc("lookup.both_forms_compared");
             }
+            {
+                // a linear interpolator asked at a node must return what the lattice holds there
+                uint64_t want[8] = {0};
+                Scal os = d.layers[0].out_scal;
+                if (scal_is_float(os) && scal_is_float(d.storage) && linear_node_expectation(d, A.model, cr, want)) {
+                    bool any = false;
+                    for (int j = 0; j < d.M && j < od; ++j) {
+                        bool judged = false;
+                        if (!same_value_modulo_zero_sign(bits[j], os, want[j], d.storage, judged)) {
+                            std::ostringstream o2;
+                            o2 << "linear interpolation at a lattice node, component " << j << ": returned 0x" << std::hex << bits[j] << ", the node holds 0x" << want[j];
+                            violate(opi, "value-mismatch", A.stack, name, o2.str());
+                            return;
+                        }
+                        any = any || judged;
+                    }
+                    if (any)
+                        cnt.inc("lookup.compared_with_model_at_interpolation_node");
+                }
+            }
             if ((int)cr.cell.size() == d.N && d.N > 0 && !cr.defaulted) {
                 // No interpolation arithmetic between the view and the storage: the chain ends in
                 // one lattice cell and the public lookup path must show exactly what the field
@@ -1317,7 +1412,18 @@ struct GenSlot {
     std::vector<size_t> ext;
 };
 
+std::vector<size_t> gen_ext_pos(Rng &r, const StackDesc &d, bool need2);
+// Now and then one axis has length ZERO: a field without cells is a valid (if dull) field -
+// it is what a default-constructed field is - and must be copied, converted, dumped, loaded
+// and refused like any other.
 std::vector<size_t> gen_ext(Rng &r, const StackDesc &d, bool need2)
+{
+    std::vector<size_t> e = gen_ext_pos(r, d, need2);
+    if (!need2 && d.shape == SHAPE_LAYOUT && d.N >= 1 && r.chance(0.02))
+        e[r.below(d.N)] = 0;
+    return e;
+}
+std::vector<size_t> gen_ext_pos(Rng &r, const StackDesc &d, bool need2)
 {
     std::vector<size_t> e(d.N);
     static const size_t special[] = {1, 2, 3, 4, 5, 7, 8, 9, 15, 16, 17};
@@ -1607,6 +1713,7 @@ Plan gen_big_plan(const std::string &property, uint64_t seed, uint64_t index, bo
     p.vmode = property == "C07" ? VAL_FINITE : VAL_ANY;
     p.nice = 1;
     p.seek = rk.chance(0.5) ? 1 : 0;
+    p.fe = rk.chance(0.25) ? FE_ALL_EXCEPT : 0;
     auto items = big_items(property, thorough, dis);
     if (items.empty())
         return p;
@@ -2108,6 +2215,10 @@ Plan gen_plan(const std::string &property, const std::string &profile, uint64_t 
     p.pre = rk.chance(0.3) ? (int)rk.range(1, 9) : 0;
     p.post = rk.chance(0.3) ? (int)rk.range(1, 9) : 0;
     p.seek = rk.chance(0.5) ? 1 : 0;
+    {
+        static const int fes[] = {FE_OVERFLOW, FE_INVALID, FE_DIVBYZERO, FE_UNDERFLOW | FE_INEXACT, FE_ALL_EXCEPT, FE_INEXACT};
+        p.fe = rk.chance(0.25) ? fes[rk.below(6)] : 0;
+    }
     double w[OP_NKINDS] = {0};
     bool f_alloc = false, f_stream = false, f_cuda = false;
     bool lookups = false;
@@ -2115,27 +2226,27 @@ Plan gen_plan(const std::string &property, const std::string &profile, uint64_t 
     if (profile == "ownership" || profile == "conversion" || profile == "roundtrip")
         p.nice = rk.chance(0.5) ? 1 : 0; // lookups need configurations with a usable domain
     if (profile == "ownership") {
-        double ww[] = {3, 0.5, 4, 3, 2, 4, 2, 1.5, 0.7, 1.5, 1.5, 1, 0.3, 1.5, 2.5, 1.5};
+        double ww[] = {3, 0.5, 4, 3, 2, 4, 2, 1.5, 0.7, 1.5, 1.5, 1, 0.3, 1.5, 2.5, 1.5, 0.4};
         std::copy(ww, ww + OP_NKINDS, w);
         fault_run = rk.chance(0.5);
         f_alloc = fault_run;
         f_stream = fault_run && rk.chance(0.5);
         f_cuda = fault_run;
     } else if (profile == "conversion") {
-        double ww[] = {3, 0, 2, 0.7, 0.3, 0.5, 0.2, 6, 2, 0, 0, 0, 0, 0.7, 1.5, 0.5};
+        double ww[] = {3, 0, 2, 0.7, 0.3, 0.5, 0.2, 6, 2, 0, 0, 0, 0, 0.7, 1.5, 0.5, 0};
         std::copy(ww, ww + OP_NKINDS, w);
         fault_run = rk.chance(0.4);
         f_alloc = fault_run;
         f_cuda = fault_run;
     } else if (profile == "roundtrip") {
-        double ww[] = {3, 0, 2, 0.3, 0, 0.3, 0, 0.5, 0, 4, 4, 1, 3, 0.5, 1.0, 0.7};
+        double ww[] = {3, 0, 2, 0.3, 0, 0.3, 0, 0.5, 0, 4, 4, 1, 3, 0.5, 1.0, 0.7, 1.5};
         std::copy(ww, ww + OP_NKINDS, w);
     } else if (profile == "portability") {
-        double ww[] = {3, 0, 1.5, 0, 0, 0, 0, 0.3, 0, 4, 5, 0.5, 1.5, 0.5, 0, 0.3};
+        double ww[] = {3, 0, 1.5, 0, 0, 0, 0, 0.3, 0, 4, 5, 0.5, 1.5, 0.5, 0, 0.3, 0.7};
         std::copy(ww, ww + OP_NKINDS, w);
         p.vmode = VAL_FINITE;
     } else { // ub
-        double ww[] = {3, 0.3, 3, 1.5, 1, 1.5, 1, 1.5, 0.5, 1.5, 1.5, 0.7, 0.7, 1, 7, 1.0};
+        double ww[] = {3, 0.3, 3, 1.5, 1, 1.5, 1, 1.5, 0.5, 1.5, 1.5, 0.7, 0.7, 1, 7, 1.0, 0.5};
         std::copy(ww, ww + OP_NKINDS, w);
         lookups = true;
         p.nice = 1;
@@ -2435,6 +2546,26 @@ Plan gen_plan(const std::string &property, const std::string &profile, uint64_t 
             gs[dst].stack = op.stack;
             break;
         }
+        case OP_LOAD_TWO: {
+            if (gfiles.size() < 2)
+                continue;
+            auto it = gfiles.begin();
+            std::advance(it, rg.below(gfiles.size()));
+            op.b = it->first;
+            int second = -1;
+            for (int k = 1; k <= 2 && second < 0; ++k)
+                if (gfiles.count((op.b + k) % 3))
+                    second = (op.b + k) % 3;
+            if (second < 0)
+                continue;
+            op.a = dst;
+            int d2 = (dst + 1) % p.nslots;
+            gs[dst].state = S_LIVE;
+            gs[dst].stack = it->second;
+            gs[d2].state = S_LIVE;
+            gs[d2].stack = gfiles[second];
+            break;
+        }
         case OP_REDUMP: {
             if (gfiles.empty())
                 continue;
@@ -2596,6 +2727,15 @@ RunResult run_plan_once(const Plan &p, Disabled &dis, Counters &cnt, Progress *p
     cuda::begin_run();
 #endif
     RunResult rr;
+    // every run starts from the floating-point environment the process started with: a
+    // library call that changes the control word (rounding mode, flush-to-zero) must not
+    // leak into later runs of this worker, or replay in a fresh process would differ
+    static const fenv_t start_env = [] {
+        fenv_t e;
+        std::fegetenv(&e);
+        return e;
+    }();
+    std::fesetenv(&start_env);
     watchdog_arm(RUNNING_ON_VALGRIND ? 900 : 60);
     {
         World w(p, dis, cnt, prog);
